@@ -67,7 +67,9 @@ def regenerate(res):
     """translator step: regenerate PGM/Generated/* from /repo's working tree"""
     rc, out = sh([sys.executable, os.path.join(VERIF, 'tools', 'py2lean.py'), '--repo', common.REPO,
                   '--out', os.path.join(LEAN_DIR, 'PGM', 'Generated')])
-    return rc == 0, out
+    rc2, out2 = sh([sys.executable, os.path.join(VERIF, 'tools', 'py2flow.py'), '--repo', common.REPO,
+                    '--out', os.path.join(LEAN_DIR, 'PGM', 'Generated')])
+    return rc == 0 and rc2 == 0, out + out2
 
 
 def build(mod, exe):
